@@ -110,6 +110,16 @@ func checkRejectLocal(c rejectCase) harness.Outcome {
 		return failf("%s", bad)
 	}
 
+	if bad := noEffect(text, res.ReturnOnly); bad != "" {
+		return failf("%s", bad)
+	}
+	return o
+}
+
+// noEffect runs a text that parser.ParseFile rejects through the runtime's entry points and
+// returns "" when every one of them returns an error, the host function was not called and the
+// global object is unchanged.
+func noEffect(text string, returnOnly bool) string {
 	// One runtime serves consecutive cases: a rejected text must leave it exactly as it was, and
 	// that is what is verified after every case; the runtime is dropped at the first deviation, so
 	// the verdict of a case never depends on an earlier one.
@@ -117,7 +127,7 @@ func checkRejectLocal(c rejectCase) harness.Outcome {
 	if env == nil {
 		var err error
 		if env, err = newRejectEnv(); err != nil {
-			return failf("harness: %v", err)
+			return fmt.Sprintf("harness: %v", err)
 		}
 	}
 	theEnv = nil // only put back when the case left it untouched
@@ -135,41 +145,41 @@ func checkRejectLocal(c rejectCase) harness.Outcome {
 		}},
 	}
 	for i, rt := range routes {
-		if res.ReturnOnly && i == 2 {
+		if returnOnly && i == 2 {
 			continue // a return statement is legal in a FunctionBody
 		}
 		rr := rt.run()
 		if rr.Panic != nil {
-			return failf("(b) %s panicked: %v", rt.name, rr.Panic)
+			return fmt.Sprintf("(b) %s panicked: %v", rt.name, rr.Panic)
 		}
 		if rr.Err == nil {
-			return failf("(b) %s returned no error for a text parser.ParseFile rejects", rt.name)
+			return fmt.Sprintf("(b) %s returned no error for a text parser.ParseFile rejects", rt.name)
 		}
 		if env.hits != 0 {
-			return failf("(b) %s returned %v but the host function was called %d times", rt.name, rr.Err, env.hits)
+			return fmt.Sprintf("(b) %s returned %v but the host function was called %d times", rt.name, rr.Err, env.hits)
 		}
 	}
 	after, err := vm.Run(snapshotJS)
 	if err != nil {
-		return failf("harness: snapshot: %v", err)
+		return fmt.Sprintf("harness: snapshot: %v", err)
 	}
 	diff, err := vm.Call(compareJS, nil, env.before, after)
 	if err != nil {
-		return failf("harness: compare: %v", err)
+		return fmt.Sprintf("harness: compare: %v", err)
 	}
 	if d := diff.String(); d != "" {
-		return failf("(b) Run / eval / new Function / Compile each returned an error but the runtime was changed: %s", d)
+		return fmt.Sprintf("(b) Run / eval / new Function / Compile each returned an error but the runtime was changed: %s", d)
 	}
 	env.uses++
 	if env.uses < 2000 {
 		theEnv = env
 	}
-	return o
+	return ""
 }
 
 var rejectFacet = harness.Register(&harness.Facet[rejectCase]{
 	Name: "rejection",
-	Rule: "rapid: minijs.GenProgram (valid, depth<=5) + one injector of 17 kinds (break / continue outside a loop or switch, continue to a label of a non-iteration statement, return outside a function, unknown label incl. across a function boundary, duplicate nested label, 29 invalid assignment / update / for-in targets, try without catch or finally and malformed catch, malformed or unterminated regexp / string / comment, one of 50 invalid pattern pieces (non-ES5 group forms, quantifier errors, reversed class ranges, unbalanced parentheses) wrapped 0-3 levels deep in capturing / non-capturing / alternation / quantified groups and rejected by an own ES5 15.10.1 recogniser, reserved word as identifier, 100 underivable token sequences, a bracket deleted or a stray bracket inserted, an operator inserted behind an operator, constructs otto is known to accept) placed as a statement at a random statement-list position whose context (function depth, loop, switch, labels, first-in-list) makes it an error by construction, behind `hit(1); g1=1; var g2=hit(2); this.g3=[hit]; function g4(){} hit(3);`; canonical layout or random trivia without line terminators inside the injection; oracle: ParseFile error (positions inside the text), then on a fresh runtime Run(text), eval(text), new Function(text) and Compile(text) each return an error, the host function was never called and the sorted own property names, values (by identity), accessors and attributes of the global object are unchanged; every evaluated case is non-trivial (the error is preceded by >= 6 executable statements); distinct by JSON of the case",
+	Rule: "rapid: minijs.GenProgram (valid, depth<=5) + one injector of 18 kinds (break / continue outside a loop or switch, continue to a label of a non-iteration statement, return outside a function, unknown label incl. across a function boundary, duplicate nested label, 29 invalid assignment / update / for-in targets, try without catch or finally and malformed catch, malformed or unterminated regexp / string / comment, \\x / \\u escapes with one of 26 non-hex characters at any digit position (strings of both quote kinds, keys, directives, identifiers), one of 50 invalid pattern pieces (non-ES5 group forms, quantifier errors, reversed class ranges, unbalanced parentheses) wrapped 0-3 levels deep in capturing / non-capturing / alternation / quantified groups and rejected by an own ES5 15.10.1 recogniser, reserved word as identifier, 100 underivable token sequences, a bracket deleted or a stray bracket inserted, an operator inserted behind an operator, constructs otto is known to accept) placed as a statement at a random statement-list position whose context (function depth, loop, switch, labels, first-in-list) makes it an error by construction, behind `hit(1); g1=1; var g2=hit(2); this.g3=[hit]; function g4(){} hit(3);`; canonical layout or random trivia without line terminators inside the injection; oracle: ParseFile error (positions inside the text), then on a fresh runtime Run(text), eval(text), new Function(text) and Compile(text) each return an error, the host function was never called and the sorted own property names, values (by identity), accessors and attributes of the global object are unchanged; every evaluated case is non-trivial (the error is preceded by >= 6 executable statements); distinct by JSON of the case",
 	Quick: 2500, Thorough: 24000,
 	Gen: func(t *rapid.T) rejectCase {
 		c := rejectCase{Prog: genPrograms(t, 5)}
